@@ -35,6 +35,11 @@ Depth1 ==
   \cup {S1(kd, t, v, o) : kd \in ScalKinds, t \in {"uint", "ulong"}, v \in {RTwo, FromInt(3)}, o \in {Xn(1), Dn(1)}}
   \cup {Neg(o) : o \in Leaves}
   \cup {B2(kd, l, r) : kd \in {"Prod", "Sum", "Diff"}, l \in Leaves, r \in Leaves}
+\* every ordered pair of unary wrappers (scalar forms and unary minus) around a
+\* leaf: nested ScalarMultiplication / OperatorSum nodes, e.g. -(A / c), (c * A) / d
+UScal(lvl) == IF lvl = 1 THEN {<<"T", RTwo>>, <<"int", FromInt(3)>>} ELSE {<<"T", R(1, 2)>>} \cup (IF Thorough THEN {<<"int", FromInt(2)>>} ELSE {})
+Unary(a, lvl) == {S1(kd, s[1], s[2], a) : kd \in ScalKinds, s \in UScal(lvl)} \cup {Neg(a)}
+Depth2U == UNION {Unary(i, 1) : i \in Unary(Xn(1), 2)} \cup UNION {Unary(i, 1) : i \in {Neg(Dn(1)), S1("Div", "int", RTwo, Dn(1))}}
 \* the identities the property names, spelled as expressions
 Commutator == B2("Diff", B2("Prod", Dn(1), Xn(1)), B2("Prod", Xn(1), Dn(1)))       \* = identity
 Named == {Commutator,
@@ -46,7 +51,7 @@ Named == {Commutator,
           Neg(Neg(Dn(1))),
           B2("Prod", B2("Prod", Dn(1), Xn(2)), Dn(1))}
 ExtraASTs == {Extra[i] : i \in DOMAIN Extra}
-Exprs == Leaves \cup Depth1 \cup Named \cup ExtraASTs
+Exprs == Leaves \cup Depth1 \cup Depth2U \cup Named \cup ExtraASTs
 
 RECURSIVE HasSpl(_)
 HasSpl(op) == CASE op.k = "Spl" -> TRUE
